@@ -125,7 +125,7 @@ func genMut(t *rapid.T, stream []byte, lists []esl.List) Mut {
 }
 
 func genCase(t *rapid.T) Case {
-	if gen.Chance(t, "giant", 1, 1500) {
+	if gen.Chance(t, "giant", 1, 600) {
 		// tens of MiB, whole or cut somewhere: nothing is dropped silently at any size
 		c := Case{Giant: rapid.IntRange(1, 3).Draw(t, "giantkind")}
 		if rapid.Bool().Draw(t, "giantcut") {
